@@ -50,28 +50,30 @@ pub mod etag {
         assert(scan(Seq::<u8>::empty(), t, true) == (false, false));
         assert(scan(Seq::<u8>::empty(), t, false) == (false, false));
     }
+    /// The header is absent, `*`, or a well-formed tag list.
+    pub open spec fn list_ok(m: Option<Seq<u8>>) -> bool { match m { None => true, Some(l) => is_star(l) || wf_list(l) } }
     pub open spec fn opt_bytes(v: Option<HeaderValue>) -> Option<Seq<u8>> { match v { Some(h) => Some(h.bytes@), None => None } }
     pub open spec fn hdr_bytes(h: &HeaderMap, k: HeaderName) -> Option<Seq<u8>> { if h.m@.dom().contains(k) { Some(h.m@[k].bytes@) } else { None } }
 
     //@fn src/etag.rs :: fn none_match props=C04,C14 implicit=C13 rules=R10,R22,STD
     #[verifier::loop_isolation(false)]
     pub fn none_match(etag: &Option<HeaderValue>, req_hdrs: &HeaderMap) -> (r: Option<bool>)
-        ensures /*@C04 #none_match_is_weak_list_comparison*/ r == none_match_s(opt_bytes(*etag), hdr_bytes(req_hdrs, HeaderName::IF_NONE_MATCH)),
+        ensures /*@C04 #none_match_is_weak_list_comparison*/ list_ok(hdr_bytes(req_hdrs, HeaderName::IF_NONE_MATCH)) ==> r == none_match_s(opt_bytes(*etag), hdr_bytes(req_hdrs, HeaderName::IF_NONE_MATCH)),
             /*@C14 #echoed_etag_gives_not_modified*/ (*etag matches Some(e) && single_tag(e.bytes@) && hdr_bytes(req_hdrs, HeaderName::IF_NONE_MATCH) == Some(e.bytes@)) ==> r == Some(false),
     //@body
     //@ at_start: proof { if let Some(e) = etag { if single_tag(e.bytes@) { lemma_single_tag_scan(e.bytes@); } } }
-    //@ loop 1: invariant /*@C04 #none_match_scan_invariant*/ !items.corrupt && scan(hdr_bytes(req_hdrs, HeaderName::IF_NONE_MATCH).unwrap(), opt_bytes(*etag).unwrap(), true) == ((!none_match || scan(items.remaining@, opt_bytes(*etag).unwrap(), true).0), scan(items.remaining@, opt_bytes(*etag).unwrap(), true).1), decreases items.remaining@.len(),
+    //@ loop 1: invariant /*@C04 #none_match_scan_invariant*/ wf_list(hdr_bytes(req_hdrs, HeaderName::IF_NONE_MATCH).unwrap()) ==> wf_list(items.remaining@) && !items.corrupt && scan(hdr_bytes(req_hdrs, HeaderName::IF_NONE_MATCH).unwrap(), opt_bytes(*etag).unwrap(), true) == ((!none_match || scan(items.remaining@, opt_bytes(*etag).unwrap(), true).0), scan(items.remaining@, opt_bytes(*etag).unwrap(), true).1), decreases items.remaining@.len(),
     //@ after "loop {": proof { lemma_step_shrinks(items.remaining@); }
     //@end
 
     //@fn src/etag.rs :: fn any_match props=C04,C14 implicit=C13 rules=R10,R22,STD
     #[verifier::loop_isolation(false)]
     pub fn any_match(etag: &Option<HeaderValue>, req_hdrs: &HeaderMap) -> (r: Result<bool, &'static str>)
-        ensures /*@C04 #any_match_is_strong_list_comparison*/ (match r { Ok(b) => Ok::<bool, ()>(b), Err(_) => Err::<bool, ()>(()) }) == any_match_s(opt_bytes(*etag), hdr_bytes(req_hdrs, HeaderName::IF_MATCH)),
+        ensures /*@C04 #any_match_is_strong_list_comparison*/ list_ok(hdr_bytes(req_hdrs, HeaderName::IF_MATCH)) ==> (match r { Ok(b) => Ok::<bool, ()>(b), Err(_) => Err::<bool, ()>(()) }) == any_match_s(opt_bytes(*etag), hdr_bytes(req_hdrs, HeaderName::IF_MATCH)),
             /*@C14 #echoed_strong_etag_passes_if_match*/ (*etag matches Some(e) && single_tag(e.bytes@) && !is_weak(e.bytes@) && hdr_bytes(req_hdrs, HeaderName::IF_MATCH) == Some(e.bytes@)) ==> r == Ok::<bool, &'static str>(true),
     //@body
     //@ at_start: proof { if let Some(e) = etag { if single_tag(e.bytes@) { lemma_single_tag_scan(e.bytes@); } } }
-    //@ loop 1: invariant /*@C04 #any_match_scan_invariant*/ !items.corrupt && scan(hdr_bytes(req_hdrs, HeaderName::IF_MATCH).unwrap(), opt_bytes(*etag).unwrap(), false) == ((any_match || scan(items.remaining@, opt_bytes(*etag).unwrap(), false).0), scan(items.remaining@, opt_bytes(*etag).unwrap(), false).1), decreases items.remaining@.len(),
+    //@ loop 1: invariant /*@C04 #any_match_scan_invariant*/ wf_list(hdr_bytes(req_hdrs, HeaderName::IF_MATCH).unwrap()) ==> wf_list(items.remaining@) && !items.corrupt && scan(hdr_bytes(req_hdrs, HeaderName::IF_MATCH).unwrap(), opt_bytes(*etag).unwrap(), false) == ((any_match || scan(items.remaining@, opt_bytes(*etag).unwrap(), false).0), scan(items.remaining@, opt_bytes(*etag).unwrap(), false).1), decreases items.remaining@.len(),
     //@ after "loop {": proof { lemma_step_shrinks(items.remaining@); }
     //@end
 }
@@ -83,8 +85,8 @@ pub open spec fn hdr_date(h: &HeaderMap, k: HeaderName) -> Option<Option<SystemT
 }
 /// Validators are well-formed: tag lists parse, dates parse.
 pub open spec fn well_formed(etag: Option<HeaderValue>, h: &HeaderMap, lm: Option<SystemTime>) -> bool {
-    &&& any_match_s(etag::opt_bytes(etag), etag::hdr_bytes(h, HeaderName::IF_MATCH)).is_ok()
-    &&& (h.m@.dom().contains(HeaderName::IF_NONE_MATCH) ==> none_match_s(etag::opt_bytes(etag), etag::hdr_bytes(h, HeaderName::IF_NONE_MATCH)).is_some())
+    &&& etag::list_ok(etag::hdr_bytes(h, HeaderName::IF_MATCH))
+    &&& etag::list_ok(etag::hdr_bytes(h, HeaderName::IF_NONE_MATCH))
     &&& (hdr_date(h, HeaderName::IF_UNMODIFIED_SINCE) matches Some(d) ==> d.is_some())
     &&& (hdr_date(h, HeaderName::IF_MODIFIED_SINCE) matches Some(d) ==> d.is_some())
 }
@@ -130,6 +132,7 @@ fn parse_modified_hdrs(etag: &Option<HeaderValue>, req_hdrs: &HeaderMap, last_mo
         /*@C14 #echoed_last_modified_in_if_modified_since*/ (well_formed(*etag, req_hdrs, last_modified) && !req_hdrs.m@.dom().contains(HeaderName::IF_NONE_MATCH)
             && (last_modified matches Some(m) && hdr_date(req_hdrs, HeaderName::IF_MODIFIED_SINCE) matches Some(Some(d)) && d.secs == m.secs)) ==> (res matches Ok(p) && p.1),
 //@body
+//@ at_start: proof { if let Some(e) = etag::opt_bytes(*etag) { if let Some(m) = etag::hdr_bytes(req_hdrs, HeaderName::IF_MATCH) { if wf_list(m) { lemma_wf_not_corrupt(m, e, false); } } if let Some(m) = etag::hdr_bytes(req_hdrs, HeaderName::IF_NONE_MATCH) { if wf_list(m) { lemma_wf_not_corrupt(m, e, true); } } } }
 //@end
 
 //@lemma props=C14 lemma_echo_last_modified
